@@ -86,7 +86,8 @@ def check_property(pid, tier="quick", seed=0):
     # machine load, and the re-run's result stands.
     from pyvc import state as _state
     shaky = {r["unit"] for r in results if r["kind"] == "func" and not r["error"]
-             and (r["unsupported"] or any(o["verdict"] != "proved" and o["kind"] != "cover" for o in r["obligations"]))}
+             and ((r["unsupported"] and "path explosion" not in r["unsupported"])
+                  or any(o["verdict"] != "proved" and o["kind"] != "cover" for o in r["obligations"]))}
     if shaky and _state.FEAS_MS < 4000 and len(shaky) <= 64:
         old_ms = _state.FEAS_MS
         _state.FEAS_MS = 4000
